@@ -35,7 +35,7 @@ def canary(grp):
 
 def model(rep, sz):
     cfg = core.workdir("mc_" + PROP, clean=True) + "/MC_FromStr.cfg"
-    consts = dict(Size=sz["mc_size"], Dedup=True)
+    consts = dict(Size=sz["mc_size"], Dedup=True, Overlap=False)
     core.write_cfg(cfg, constants=consts,
                    invariants=["ExpansionIsSpec", "PhfCompiles", "NeverDisabled", "RoundTrip", "AsciiOnly", "FlagTable"])
     res = core.tlc_mc("MC_FromStr.tla", cfg, "mc_" + PROP, workers=6, timeout=7200, xmx="12g")
